@@ -16,6 +16,7 @@ const (
 	ypOpBoundary = iota
 	ypNode
 	ypCallback
+	ypGlobal // a statement touching process-wide state (instrumented build only)
 	ypKinds
 )
 
